@@ -5,3 +5,4 @@ import MtailVerif.Props.C09
 #print axioms MtailVerif.C08.encode_injective_any
 #print axioms MtailVerif.C09.same_datum_iff_equal_tuple
 #print axioms MtailVerif.C09.frame_model
+#print axioms MtailVerif.C08.metric_skeletons
